@@ -141,6 +141,33 @@ func VP_C08_error_with_last_bytes() {
 	vpExpectPackets(tr, types, bodies, "lastread")
 }
 
+//vp:property C08
+//vp:set maxalloc 4096 4096
+//vp:bounds a slow path: one packet with a 92-byte body (symbolic type, symbolic first/last body byte) delivered in reads of 1, 2 or 3 bytes each (100, 50 or 34 transport reads), followed by a small packet in one read
+func VP_C08_trickle() {
+	body := make([]byte, 92)
+	for i := range body {
+		body[i] = 0x5C
+	}
+	body[0], body[91] = vpU8("first"), vpU8("last")
+	pt := vpU16("pt")
+	p := vpPacket(pt, body)
+	step := vpIntRange("bytes-per-read", 1, 3)
+	var segs [][]byte
+	for i := 0; i < len(p); i += step {
+		j := i + step
+		if j > len(p) {
+			j = len(p)
+		}
+		segs = append(segs, p[i:j:j])
+	}
+	pt2 := vpU16("pt2")
+	b2 := []byte{vpU8("b2")}
+	segs = append(segs, vpPacket(pt2, b2))
+	tr := &vpTransport{in: segs}
+	vpExpectPackets(tr, []uint16{pt, pt2}, [][]byte{body, b2}, "trickle")
+}
+
 //vp:property C08 C06 C10
 //vp:bounds one 5000-byte packet (symbolic type; symbolic first, middle, last payload bytes, rest constant) delivered in exactly two reads cut at 100, 3000, 4095, 4096 (first fragment fits the 4096-byte scratch buffer, the whole packet does not)
 func VP_C08_split2_big() {
